@@ -58,18 +58,19 @@ class Prog:
         logs = []
         hyg = p.get("hyg", False)
         for j, k in enumerate(p["params"], start=1):
+            d = 9 - j          # name suffixes DESCEND with the position: declaration order is not alphabetical order
             if k == "i32" and hyg and j <= 2:
                 # both are called `a2` in the expanded code: `$p` (from the macro caller) and the literal `a2` of the macro body
                 nm = "$p" if j == 1 else "a2"
                 params.append(f"{nm}: i32"); logs.append(f'format!("{{:?}}", {nm})'); leaf += 1
             elif k == "i32":
-                params.append(f"a{j}: i32"); logs.append(f'format!("{{:?}}", a{j})'); leaf += 1
+                params.append(f"a{d}: i32"); logs.append(f'format!("{{:?}}", a{d})'); leaf += 1
             elif k == "string":
-                params.append(f"s{j}: String"); logs.append(f"s{j}.clone()"); leaf += 1
+                params.append(f"s{d}: String"); logs.append(f"s{d}.clone()"); leaf += 1
             elif k == "str":
-                params.append(f"r{j}: &str"); logs.append(f"r{j}.to_string()"); leaf += 1
+                params.append(f"r{d}: &str"); logs.append(f"r{d}.to_string()"); leaf += 1
             elif k == "tuple":
-                params.append(f"(x{j}, y{j}): (i32, i32)"); logs.append(f'format!("{{:?}}", x{j})'); logs.append(f'format!("{{:?}}", y{j})'); leaf += 2
+                params.append(f"(x{d}, y{d}): (i32, i32)"); logs.append(f'format!("{{:?}}", x{d})'); logs.append(f'format!("{{:?}}", y{d})'); leaf += 2
             elif k == "wild":
                 params.append("_: i32"); logs.append('String::from("_")'); leaf += 1
             elif k == "samename":
@@ -78,7 +79,7 @@ class Prog:
                 params.append(f"crate::N(f{fi}): crate::N"); logs.append(f'format!("{{:?}}", f{fi})'); leaf += 1
             elif k == "gen":
                 gens.append(f"G{fi}x{j}: ::core::fmt::Debug + Send")
-                params.append(f"g{j}: G{fi}x{j}"); logs.append(f'format!("{{:?}}", g{j})'); leaf += 1
+                params.append(f"g{d}: G{fi}x{j}"); logs.append(f'format!("{{:?}}", g{d})'); leaf += 1
         return gens, params, logs
 
     def deps_id(self):
